@@ -1,32 +1,33 @@
 #!/bin/bash
-# usage: confirm_seed.sh <worktree> <k> <property>
+# usage: confirm_seed.sh <worktree> <outdir> <k> <property>
 # Confirms a sub-agent's seeded change in its scratch worktree: builds, full suite passes with the
 # change, demo fails with it and passes without. On success copies it to /verif/seeded/<prop>-<k>/.
 set -u
-WT=$1; K=$2; ID=$3
+WT=$1; OUT=$2; K=$3; ID=$4
 export GOFLAGS=-mod=mod GOPROXY=off
-D=$WT/out/$K
+D=$OUT/$K
 LOG=/tmp/confirm-$ID-$K.log
 : > $LOG
 cd $WT || exit 2
-git checkout -q -- . ; git clean -fdq -e out
+git checkout -q -- . ; git clean -fdq
 META=$D/meta.json
 DEMO=$(python3 -c "import json;print(json.load(open('$META'))['demo']['file'])")
 DEST=$(python3 -c "import json;print(json.load(open('$META'))['demo']['copy_to'])")
 RUN=$(python3 -c "import json;print(json.load(open('$META'))['demo']['run'])")
 git apply $D/patch.diff >>$LOG 2>&1 || { echo "$ID/$K: patch does not apply"; exit 1; }
 go build ./... >>$LOG 2>&1 || { echo "$ID/$K: build fails"; git checkout -q -- .; exit 1; }
-# full suite with the change (own network namespace: testscripts bind fixed ports)
-mv out /tmp/out-$ID-$$ 2>/dev/null
 unshare -rn sh -c "ip link set lo up && go test -vet=off -count=1 ./..." >>$LOG 2>&1; SUITE=$?
-mv /tmp/out-$ID-$$ out
+if [ $SUITE -ne 0 ]; then
+  # one retry: a few cmd/pint and checks tests are timing sensitive under load
+  unshare -rn sh -c "ip link set lo up && go test -vet=off -count=1 ./..." >>$LOG 2>&1; SUITE=$?
+fi
 if [ $SUITE -ne 0 ]; then echo "$ID/$K: existing suite FAILS with the change (rejected)"; git checkout -q -- .; exit 1; fi
 cp $D/$DEMO $DEST/
 unshare -rn sh -c "ip link set lo up && $RUN" >>$LOG 2>&1; WITH=$?
 git checkout -q -- .
 unshare -rn sh -c "ip link set lo up && $RUN" >>$LOG 2>&1; WITHOUT=$?
 rm -f $DEST/$DEMO
-git clean -fdq -e out
+git clean -fdq
 if [ $WITH -ne 0 ] && [ $WITHOUT -eq 0 ]; then
   mkdir -p /verif/seeded/$ID-$K && cp $D/patch.diff $D/$DEMO $D/meta.json /verif/seeded/$ID-$K/
   echo "$ID/$K: CONFIRMED (suite passes with change; demo fails with, passes without)"
